@@ -2,6 +2,9 @@
 C25 — helper lemmas (the property theorems are in Props.lean).
 -/
 import PorepyVerif.C25.Model
+import Mathlib.Algebra.Order.Field.Rat
+import Mathlib.Tactic.Linarith
+import Mathlib.Tactic.Ring
 
 namespace PorepyVerif.C25
 
@@ -983,5 +986,658 @@ theorem createInterface_one {nLow cols : Nat} {fc : Nat → Option Nat} {g1 : Na
       rfl)
     (fun l _ => rfl)
   rw [this, if_neg (by decide), flatMap_singleton]
+
+
+/-! ### structured generators: nodes on a line -/
+
+theorem arange_mul (s step m : Nat) (hstep : 0 < step) :
+    arange s (s + m * step + 1) step = (List.range (m + 1)).map (fun t => s + t * step) := by
+  unfold arange
+  have h1 : s + m * step + 1 - s + (step - 1) = (m + 1) * step := by
+    have : s + m * step + 1 - s = m * step + 1 := by omega
+    rw [this, Nat.add_mul]; omega
+  rw [h1, Nat.mul_div_cancel _ hstep]
+
+theorem idx3_shift (nx ny axis : Nat) (a : T3) (t : Nat) :
+    idx3 nx ny (shift axis a t) = idx3 nx ny a + t * stride nx ny axis := by
+  unfold shift stride idx3 nodeIdx
+  split <;> (simp only []; ring)
+
+theorem stride_pos (nx ny axis : Nat) : 0 < stride nx ny axis := by
+  unfold stride
+  split
+  · exact Nat.one_pos
+  · exact Nat.succ_pos _
+  · exact Nat.mul_pos (Nat.succ_pos _) (Nat.succ_pos _)
+
+theorem findNodesOnLine_stride (nx ny axis s e : Nat) :
+    findNodesOnLine nx ny axis s e = arange (min s e) (max s e + 1) (stride nx ny axis) := by
+  rfl
+
+theorem findNodesOnLine_eq (nx ny axis : Nat) (a : T3) (m : Nat) :
+    findNodesOnLine nx ny axis (idx3 nx ny a) (idx3 nx ny (shift axis a m))
+      = (List.range (m + 1)).map (fun t => idx3 nx ny (shift axis a t)) ∧
+    findNodesOnLine nx ny axis (idx3 nx ny (shift axis a m)) (idx3 nx ny a)
+      = (List.range (m + 1)).map (fun t => idx3 nx ny (shift axis a t)) := by
+  have hle : idx3 nx ny a ≤ idx3 nx ny (shift axis a m) := by rw [idx3_shift]; omega
+  have key : arange (idx3 nx ny a) (idx3 nx ny (shift axis a m) + 1) (stride nx ny axis)
+      = (List.range (m + 1)).map (fun t => idx3 nx ny (shift axis a t)) := by
+    rw [idx3_shift, arange_mul _ _ _ (stride_pos nx ny axis)]
+    apply List.map_congr_left
+    intro t _
+    rw [idx3_shift]
+  constructor
+  · rw [findNodesOnLine_stride, Nat.min_eq_left hle, Nat.max_eq_right hle]; exact key
+  · rw [findNodesOnLine_stride, Nat.min_eq_right hle, Nat.max_eq_left hle]; exact key
+
+theorem nodeIdx_decode (nx ny i j k : Nat) (hi : i ≤ nx) (hj : j ≤ ny) :
+    nodeIdx nx ny i j k % (nx + 1) = i ∧ (nodeIdx nx ny i j k / (nx + 1)) % (ny + 1) = j ∧
+    nodeIdx nx ny i j k / (nx + 1) / (ny + 1) = k := by
+  have h : nodeIdx nx ny i j k = i + (nx + 1) * (j + (ny + 1) * k) := by unfold nodeIdx; ring
+  rw [h]
+  have hi' : i < nx + 1 := by omega
+  have hj' : j < ny + 1 := by omega
+  refine ⟨?_, ?_, ?_⟩
+  · rw [Nat.add_mul_mod_self_left, Nat.mod_eq_of_lt hi']
+  · rw [Nat.add_mul_div_left _ _ (Nat.succ_pos nx), Nat.div_eq_of_lt hi', Nat.zero_add,
+      Nat.add_mul_mod_self_left, Nat.mod_eq_of_lt hj']
+  · rw [Nat.add_mul_div_left _ _ (Nat.succ_pos nx), Nat.div_eq_of_lt hi', Nat.zero_add,
+      Nat.add_mul_div_left _ _ (Nat.succ_pos ny), Nat.div_eq_of_lt hj', Nat.zero_add]
+
+theorem nodeIdx_inj (nx ny : Nat) {i j k i' j' k' : Nat} (hi : i ≤ nx) (hi' : i' ≤ nx) (hj : j ≤ ny) (hj' : j' ≤ ny)
+    (h : nodeIdx nx ny i j k = nodeIdx nx ny i' j' k') : i = i' ∧ j = j' ∧ k = k' := by
+  have d1 := nodeIdx_decode nx ny i j k hi hj
+  have d2 := nodeIdx_decode nx ny i' j' k' hi' hj'
+  rw [h] at d1
+  exact ⟨d1.1.symm.trans d2.1, d1.2.1.symm.trans d2.2.1, d1.2.2.symm.trans d2.2.2⟩
+
+theorem idx3_inj (nx ny : Nat) {a b : T3} (ha : InGrid nx ny a) (hb : InGrid nx ny b)
+    (h : idx3 nx ny a = idx3 nx ny b) : a = b := by
+  obtain ⟨a1, a2, a3⟩ := a
+  obtain ⟨b1, b2, b3⟩ := b
+  obtain ⟨h1, h2, h3⟩ := nodeIdx_inj nx ny ha.1 hb.1 ha.2 hb.2 h
+  simp only [] at h1 h2 h3
+  subst h1 h2 h3; rfl
+
+theorem inGrid_shift_le (nx ny axis : Nat) (a : T3) {t m : Nat} (ht : t ≤ m)
+    (h : InGrid nx ny (shift axis a m)) : InGrid nx ny (shift axis a t) := by
+  unfold InGrid shift at *
+  split at h <;> simp only [] at h ⊢ <;> omega
+
+/-- the nodes found are exactly the grid nodes on the segment -/
+theorem mem_findNodesOnLine (nx ny axis : Nat) (a b : T3) (m : Nat)
+    (ha : InGrid nx ny (shift axis a m)) (hb : InGrid nx ny b) :
+    idx3 nx ny b ∈ findNodesOnLine nx ny axis (idx3 nx ny a) (idx3 nx ny (shift axis a m)) ↔
+      ∃ t, t ≤ m ∧ b = shift axis a t := by
+  rw [(findNodesOnLine_eq nx ny axis a m).1, List.mem_map]
+  constructor
+  · rintro ⟨t, ht, h⟩
+    have htm : t ≤ m := by have := List.mem_range.mp ht; omega
+    exact ⟨t, htm, (idx3_inj nx ny (inGrid_shift_le nx ny axis a htm ha) hb h).symm⟩
+  · rintro ⟨t, ht, rfl⟩
+    exact ⟨t, List.mem_range.mpr (by omega), rfl⟩
+
+/-! ### structured generators: faces of a fracture plane -/
+
+
+theorem mul_pos_le_zero_iff (x w : Rat) (hw : 0 < w) : x * w ≤ 0 ↔ x ≤ 0 := by
+  constructor
+  · intro h
+    by_contra hx
+    have : 0 < x * w := mul_pos (lt_of_not_ge hx) hw
+    linarith
+  · intro h
+    exact mul_nonpos_of_nonpos_of_nonneg h hw.le
+
+macro "c25_ccw" : tactic => `(tactic|
+  (simp only [isCcw, cyc, List.cons_append, List.nil_append, List.zip_cons_cons, List.zip_nil_right, List.map_cons,
+      List.map_nil, List.foldl_cons, List.foldl_nil, decide_eq_true_eq, decide_eq_false_iff_not, not_lt]
+   nlinarith))
+
+macro "c25_hull" hc:ident : tactic => `(tactic|
+  (simp only [inHull, $hc:ident, if_true, Bool.false_eq_true, if_false, cyc, List.cons_append, List.nil_append,
+      List.zip_cons_cons, List.zip_nil_right, List.all_cons, List.all_nil, Bool.and_true, Bool.and_eq_true, decide_eq_true_eq]
+   constructor
+   · rintro ⟨h1, h2, h3, h4⟩
+     refine ⟨⟨?_, ?_⟩, ?_, ?_⟩ <;> (by_contra hcon; rw [not_le] at hcon; nlinarith)
+   · rintro ⟨⟨h1, h2⟩, h3, h4⟩
+     refine ⟨?_, ?_, ?_, ?_⟩ <;> nlinarith))
+
+theorem inHull_rect {u0 u1 v0 v1 : Rat} (hu : u0 < u1) (hv : v0 < v1) {P : List (Rat × Rat)}
+    (hP : IsRectOrder u0 u1 v0 v1 P) (p : Rat × Rat) :
+    inHull P p = true ↔ (u0 ≤ p.1 ∧ p.1 ≤ u1) ∧ (v0 ≤ p.2 ∧ p.2 ≤ v1) := by
+  have hw : 0 < u1 - u0 := sub_pos.mpr hu
+  have hz : 0 < v1 - v0 := sub_pos.mpr hv
+  have hwz : 0 < (u1 - u0) * (v1 - v0) := mul_pos hw hz
+  rcases hP with rfl | rfl | rfl | rfl | rfl | rfl | rfl | rfl
+  · have hc : isCcw [(u0, v0), (u1, v0), (u1, v1), (u0, v1)] = true := by c25_ccw
+    c25_hull hc
+  · have hc : isCcw [(u1, v0), (u1, v1), (u0, v1), (u0, v0)] = true := by c25_ccw
+    c25_hull hc
+  · have hc : isCcw [(u1, v1), (u0, v1), (u0, v0), (u1, v0)] = true := by c25_ccw
+    c25_hull hc
+  · have hc : isCcw [(u0, v1), (u0, v0), (u1, v0), (u1, v1)] = true := by c25_ccw
+    c25_hull hc
+  · have hc : isCcw [(u0, v1), (u1, v1), (u1, v0), (u0, v0)] = false := by c25_ccw
+    c25_hull hc
+  · have hc : isCcw [(u1, v1), (u1, v0), (u0, v0), (u0, v1)] = false := by c25_ccw
+    c25_hull hc
+  · have hc : isCcw [(u1, v0), (u0, v0), (u0, v1), (u1, v1)] = false := by c25_ccw
+    c25_hull hc
+  · have hc : isCcw [(u0, v0), (u0, v1), (u1, v1), (u1, v0)] = false := by c25_ccw
+    c25_hull hc
+
+
+/-! ### monotone node coordinates -/
+
+section mono
+variable {X : Nat → Rat} {N : Nat}
+
+theorem mono_le (hm : ∀ a b, a < b → b ≤ N → X a < X b) {a b : Nat} (hab : a ≤ b) (hb : b ≤ N) : X a ≤ X b := by
+  rcases Nat.lt_or_eq_of_le hab with h | h
+  · exact (hm a b h hb).le
+  · rw [h]
+
+theorem flat_same (hm : ∀ a b, a < b → b ≤ N → X a < X b) {tol : Rat} (htol : 0 < tol)
+    (hgap : ∀ i, i < N → tol < (X (i + 1) - X i) / 2) {i k0 : Nat} (hi : i ≤ N) (hk : k0 ≤ N) :
+    (X k0 - tol ≤ X i ∧ X i < X k0 + tol) ↔ i = k0 := by
+  constructor
+  · rintro ⟨h1, h2⟩
+    rcases Nat.lt_trichotomy i k0 with h | h | h
+    · have g := hgap i (by omega)
+      have := mono_le hm (show i + 1 ≤ k0 by omega) hk
+      linarith
+    · exact h
+    · have g := hgap k0 (by omega)
+      have := mono_le hm (show k0 + 1 ≤ i by omega) hi
+      linarith
+  · rintro rfl
+    constructor <;> linarith
+
+theorem flat_mid_false (hm : ∀ a b, a < b → b ≤ N → X a < X b) {tol : Rat}
+    (hgap : ∀ i, i < N → tol < (X (i + 1) - X i) / 2) {i k0 : Nat} (hi : i < N) (hk : k0 ≤ N) :
+    ¬ (X k0 - tol ≤ (X i + X (i + 1)) / 2 ∧ (X i + X (i + 1)) / 2 < X k0 + tol) := by
+  rintro ⟨h1, h2⟩
+  have g := hgap i hi
+  rcases Nat.lt_or_ge i k0 with h | h
+  · have := mono_le hm (show i + 1 ≤ k0 by omega) hk
+    linarith
+  · have := mono_le hm h (show i ≤ N by omega)
+    linarith
+
+theorem mid_between (hm : ∀ a b, a < b → b ≤ N → X a < X b) {i l h : Nat} (hi : i < N) (hl : l ≤ N) (hh : h ≤ N) :
+    (X l ≤ (X i + X (i + 1)) / 2 ∧ (X i + X (i + 1)) / 2 ≤ X h) ↔ l ≤ i ∧ i + 1 ≤ h := by
+  have hstep := hm i (i + 1) (Nat.lt_succ_self i) hi
+  constructor
+  · rintro ⟨h1, h2⟩
+    constructor
+    · by_contra hc
+      have := mono_le hm (show i + 1 ≤ l by omega) hl
+      linarith
+    · by_contra hc
+      have := mono_le hm (show h ≤ i by omega) (show i ≤ N by omega)
+      linarith
+  · rintro ⟨h1, h2⟩
+    have a1 := mono_le hm h1 (show i ≤ N by omega)
+    have a2 := mono_le hm h2 hh
+    constructor <;> linarith
+
+end mono
+
+/-! ### faces on a fracture plane -/
+
+theorem activeDims_facts {o : Nat} (ho : o < 3) :
+    (activeDims o).1 < 3 ∧ (activeDims o).2 < 3 ∧ (activeDims o).1 ≠ o ∧ (activeDims o).2 ≠ o ∧
+    (activeDims o).1 ≠ (activeDims o).2 := by
+  have : o = 0 ∨ o = 1 ∨ o = 2 := by omega
+  rcases this with rfl | rfl | rfl <;> decide
+
+theorem validFace_get {g : Grid3} {f : Nat × T3} (hf : g.ValidFace f) {c : Nat} (hc : c < 3) :
+    f.2.get c < g.bound f.1 c := by
+  have : c = 0 ∨ c = 1 ∨ c = 2 := by omega
+  rcases this with rfl | rfl | rfl
+  · exact hf.2.1
+  · exact hf.2.2.1
+  · exact hf.2.2.2
+
+theorem face_on_plane_iff {g : Grid3} {o k0 a0 a1 b0 b1 : Nat} {p tol : Rat} {P : List (Rat × Rat)}
+    (h : g.PlaneSpec o k0 a0 a1 b0 b1 p tol P) {f : Nat × T3} (hf : g.ValidFace f) :
+    g.faceOnPlane o p tol P f = true ↔
+      f.1 = o ∧ f.2.get o = k0 ∧ (a0 ≤ f.2.get (activeDims o).1 ∧ f.2.get (activeDims o).1 < a1) ∧
+        (b0 ≤ f.2.get (activeDims o).2 ∧ f.2.get (activeDims o).2 < b1) := by
+  obtain ⟨ha3, hb3, hao, hbo, _⟩ := activeDims_facts h.ho
+  have hmo := fun a b hab hb => h.mono o a b h.ho hab hb
+  unfold Grid3.faceOnPlane
+  rw [Bool.and_eq_true, Bool.and_eq_true, decide_eq_true_iff, decide_eq_true_iff]
+  by_cases hd : f.1 = o
+  · -- a face of the right kind
+    have hca : g.center f.1 f.2 (activeDims o).1 = (g.x (activeDims o).1 (f.2.get (activeDims o).1)
+        + g.x (activeDims o).1 (f.2.get (activeDims o).1 + 1)) / 2 := by
+      unfold Grid3.center; rw [if_neg (by rw [hd]; exact hao)]
+    have hcb : g.center f.1 f.2 (activeDims o).2 = (g.x (activeDims o).2 (f.2.get (activeDims o).2)
+        + g.x (activeDims o).2 (f.2.get (activeDims o).2 + 1)) / 2 := by
+      unfold Grid3.center; rw [if_neg (by rw [hd]; exact hbo)]
+    have hco : g.center f.1 f.2 o = g.x o (f.2.get o) := by
+      unfold Grid3.center; rw [if_pos hd.symm]
+    have hta : f.2.get (activeDims o).1 < g.n (activeDims o).1 := by
+      have := validFace_get hf ha3
+      unfold Grid3.bound at this; rwa [if_neg (by rw [hd]; exact hao)] at this
+    have htb : f.2.get (activeDims o).2 < g.n (activeDims o).2 := by
+      have := validFace_get hf hb3
+      unfold Grid3.bound at this; rwa [if_neg (by rw [hd]; exact hbo)] at this
+    have hto : f.2.get o ≤ g.n o := by
+      have := validFace_get hf h.ho
+      unfold Grid3.bound at this; rw [if_pos hd.symm] at this; omega
+    have hua : g.x (activeDims o).1 a0 < g.x (activeDims o).1 a1 := h.mono _ _ _ ha3 h.ha.1 h.ha.2
+    have hub : g.x (activeDims o).2 b0 < g.x (activeDims o).2 b1 := h.mono _ _ _ hb3 h.hb.1 h.hb.2
+    rw [inHull_rect hua hub h.rect, hco, h.hp]
+    simp only []
+    rw [hca, hcb,
+      mid_between (fun a b hab hb => h.mono _ a b ha3 hab hb) hta (by have := h.ha; omega) h.ha.2,
+      mid_between (fun a b hab hb => h.mono _ a b hb3 hab hb) htb (by have := h.hb; omega) h.hb.2,
+      flat_same hmo h.htol h.hgap hto h.hk]
+    constructor
+    · rintro ⟨⟨⟨h1, h2⟩, h3, h4⟩, h5⟩
+      exact ⟨hd, h5, ⟨h1, by omega⟩, h3, by omega⟩
+    · rintro ⟨_, h5, ⟨h1, h2⟩, h3, h4⟩
+      exact ⟨⟨⟨h1, by omega⟩, h3, by omega⟩, h5⟩
+  · -- a face of another kind: its centre is half a cell away from every grid plane x_o = const
+    have hco : g.center f.1 f.2 o = (g.x o (f.2.get o) + g.x o (f.2.get o + 1)) / 2 := by
+      unfold Grid3.center; rw [if_neg (fun e => hd e.symm)]
+    have hto : f.2.get o < g.n o := by
+      have := validFace_get hf h.ho
+      unfold Grid3.bound at this; rwa [if_neg (fun e => hd e.symm)] at this
+    constructor
+    · rintro ⟨_, hflat⟩
+      rw [hco, h.hp] at hflat
+      exact absurd hflat (flat_mid_false hmo h.hgap hto h.hk)
+    · rintro ⟨e, _⟩; exact absurd e hd
+
+theorem mem_facesOfKind (g : Grid3) (d : Nat) (f : Nat × T3) :
+    f ∈ g.facesOfKind d ↔ f.1 = d ∧ f.2.1 < g.bound d 0 ∧ f.2.2.1 < g.bound d 1 ∧ f.2.2.2 < g.bound d 2 := by
+  obtain ⟨fd, i, j, k⟩ := f
+  unfold Grid3.facesOfKind
+  simp only [List.mem_flatMap, List.mem_map, List.mem_range, Prod.mk.injEq]
+  constructor
+  · rintro ⟨k', hk, j', hj, i', hi, rfl, rfl, rfl, rfl⟩
+    exact ⟨rfl, hi, hj, hk⟩
+  · rintro ⟨rfl, hi, hj, hk⟩
+    exact ⟨k, hk, j, hj, i, hi, rfl, rfl, rfl, rfl⟩
+
+theorem mem_allFaces (g : Grid3) (f : Nat × T3) : f ∈ g.allFaces ↔ g.ValidFace f := by
+  obtain ⟨fd, t⟩ := f
+  unfold Grid3.allFaces Grid3.ValidFace
+  simp only [List.mem_append, mem_facesOfKind]
+  constructor
+  · rintro ((⟨h, h1⟩ | ⟨h, h1⟩) | ⟨h, h1⟩) <;> (subst h; exact ⟨by omega, h1⟩)
+  · rintro ⟨h3, h1⟩
+    have : fd = 0 ∨ fd = 1 ∨ fd = 2 := by omega
+    rcases this with h | h | h <;> subst h
+    · exact Or.inl (Or.inl ⟨rfl, h1⟩)
+    · exact Or.inl (Or.inr ⟨rfl, h1⟩)
+    · exact Or.inr ⟨rfl, h1⟩
+
+/-- the faces `_create_lower_dim_grids_3d` tags for a fracture are exactly the grid faces lying on it -/
+theorem mem_planeFaces {g : Grid3} {o k0 a0 a1 b0 b1 : Nat} {p tol : Rat} {P : List (Rat × Rat)}
+    (h : g.PlaneSpec o k0 a0 a1 b0 b1 p tol P) (x : Nat) :
+    x ∈ g.planeFaces o p tol P ↔ ∃ f : Nat × T3, g.ValidFace f ∧ f.1 = o ∧ f.2.get o = k0 ∧
+      (a0 ≤ f.2.get (activeDims o).1 ∧ f.2.get (activeDims o).1 < a1) ∧
+      (b0 ≤ f.2.get (activeDims o).2 ∧ f.2.get (activeDims o).2 < b1) ∧ x = g.faceIndex f := by
+  unfold Grid3.planeFaces
+  rw [List.mem_map]
+  constructor
+  · rintro ⟨f, hf, rfl⟩
+    rw [List.mem_filter, mem_allFaces] at hf
+    obtain ⟨h1, h2, h3, h4⟩ := (face_on_plane_iff h hf.1).mp hf.2
+    exact ⟨f, hf.1, h1, h2, h3, h4, rfl⟩
+  · rintro ⟨f, hv, h1, h2, h3, h4, rfl⟩
+    exact ⟨f, List.mem_filter.mpr ⟨(mem_allFaces g f).mpr hv, (face_on_plane_iff h hv).mpr ⟨h1, h2, h3, h4⟩⟩, rfl⟩
+
+/-! ### nodes of a fracture plane -/
+
+theorem forall_lt3_iff {o : Nat} (ho : o < 3) (Q : Nat → Prop) :
+    (∀ c, c < 3 → Q c) ↔ Q o ∧ Q (activeDims o).1 ∧ Q (activeDims o).2 := by
+  have : o = 0 ∨ o = 1 ∨ o = 2 := by omega
+  constructor
+  · intro h
+    obtain ⟨h1, h2, _⟩ := activeDims_facts ho
+    exact ⟨h o ho, h _ h1, h _ h2⟩
+  · rintro ⟨h0, h1, h2⟩ c hc
+    have hc' : c = 0 ∨ c = 1 ∨ c = 2 := by omega
+    rcases this with rfl | rfl | rfl <;> rcases hc' with rfl | rfl | rfl <;> assumption
+
+theorem exists_T3 {o : Nat} (ho : o < 3) (vo va vb : Nat) :
+    ∃ t : T3, t.get o = vo ∧ t.get (activeDims o).1 = va ∧ t.get (activeDims o).2 = vb := by
+  have : o = 0 ∨ o = 1 ∨ o = 2 := by omega
+  rcases this with rfl | rfl | rfl
+  · exact ⟨(vo, va, vb), rfl, rfl, rfl⟩
+  · exact ⟨(va, vo, vb), rfl, rfl, rfl⟩
+  · exact ⟨(va, vb, vo), rfl, rfl, rfl⟩
+
+theorem validFace_iff (g : Grid3) (f : Nat × T3) :
+    g.ValidFace f ↔ f.1 < 3 ∧ ∀ c, c < 3 → f.2.get c < g.bound f.1 c := by
+  constructor
+  · intro h; exact ⟨h.1, fun c hc => validFace_get h hc⟩
+  · rintro ⟨h3, h⟩
+    exact ⟨h3, h 0 (by omega), h 1 (by omega), h 2 (by omega)⟩
+
+theorem mem_faceNodes (g : Grid3) (f : Nat × T3) (hf : f.1 < 3) (n : Nat) :
+    n ∈ g.faceNodes f ↔ ∃ c : T3, c.get f.1 = f.2.get f.1 ∧
+      (c.get (activeDims f.1).1 = f.2.get (activeDims f.1).1 ∨ c.get (activeDims f.1).1 = f.2.get (activeDims f.1).1 + 1) ∧
+      (c.get (activeDims f.1).2 = f.2.get (activeDims f.1).2 ∨ c.get (activeDims f.1).2 = f.2.get (activeDims f.1).2 + 1) ∧
+      n = idx3 (g.n 0) (g.n 1) c := by
+  obtain ⟨d, i, j, k⟩ := f
+  have : d = 0 ∨ d = 1 ∨ d = 2 := by have : d < 3 := hf; omega
+  rcases this with rfl | rfl | rfl
+  all_goals
+    simp only [Grid3.faceNodes, activeDims, T3.get, idx3, List.mem_cons, List.not_mem_nil, or_false]
+    constructor
+    · rintro (rfl | rfl | rfl | rfl)
+      · exact ⟨(i, j, k), rfl, Or.inl rfl, Or.inl rfl, rfl⟩
+      · first
+          | exact ⟨(i, j + 1, k), rfl, Or.inr rfl, Or.inl rfl, rfl⟩
+          | exact ⟨(i, j, k + 1), rfl, Or.inl rfl, Or.inr rfl, rfl⟩
+          | exact ⟨(i + 1, j, k), rfl, Or.inr rfl, Or.inl rfl, rfl⟩
+      · first
+          | exact ⟨(i, j + 1, k + 1), rfl, Or.inr rfl, Or.inr rfl, rfl⟩
+          | exact ⟨(i + 1, j, k + 1), rfl, Or.inr rfl, Or.inr rfl, rfl⟩
+          | exact ⟨(i + 1, j + 1, k), rfl, Or.inr rfl, Or.inr rfl, rfl⟩
+      · first
+          | exact ⟨(i, j, k + 1), rfl, Or.inl rfl, Or.inr rfl, rfl⟩
+          | exact ⟨(i + 1, j, k), rfl, Or.inr rfl, Or.inl rfl, rfl⟩
+          | exact ⟨(i, j + 1, k), rfl, Or.inl rfl, Or.inr rfl, rfl⟩
+    · rintro ⟨⟨c1, c2, c3⟩, h0, ha, hb, rfl⟩
+      simp only [] at h0 ha hb
+      subst h0
+      rcases ha with rfl | rfl <;> rcases hb with rfl | rfl <;> simp
+
+theorem idx3_lt (nx ny nz : Nat) (c : T3) (h1 : c.1 ≤ nx) (h2 : c.2.1 ≤ ny) (h3 : c.2.2 ≤ nz) :
+    idx3 nx ny c < (nx + 1) * (ny + 1) * (nz + 1) := by
+  unfold idx3 nodeIdx
+  have e1 : c.2.1 * (nx + 1) ≤ ny * (nx + 1) := Nat.mul_le_mul_right _ h2
+  have e2 : c.2.2 * ((nx + 1) * (ny + 1)) ≤ nz * ((nx + 1) * (ny + 1)) := Nat.mul_le_mul_right _ h3
+  have e3 : (nx + 1) * (ny + 1) * (nz + 1) = nz * ((nx + 1) * (ny + 1)) + (ny * (nx + 1) + (nx + 1)) := by ring
+  rw [e3]; omega
+
+/-- the node set of the fracture grid is exactly the set of grid nodes lying on the rectangle -/
+theorem mem_planeNodes {g : Grid3} {o k0 a0 a1 b0 b1 : Nat} {p tol : Rat} {P : List (Rat × Rat)}
+    (h : g.PlaneSpec o k0 a0 a1 b0 b1 p tol P) (n : Nat) :
+    n ∈ g.planeNodes o p tol P ↔ ∃ c : T3, c.get o = k0 ∧
+      (a0 ≤ c.get (activeDims o).1 ∧ c.get (activeDims o).1 ≤ a1) ∧
+      (b0 ≤ c.get (activeDims o).2 ∧ c.get (activeDims o).2 ≤ b1) ∧ n = idx3 (g.n 0) (g.n 1) c := by
+  obtain ⟨ha3, hb3, hao, hbo, _⟩ := activeDims_facts h.ho
+  unfold Grid3.planeNodes
+  simp only [List.mem_filter, List.mem_range, decide_eq_true_iff, List.mem_flatMap]
+  constructor
+  · rintro ⟨_, f, ⟨hfa, hfs⟩, hn⟩
+    have hv := (mem_allFaces g f).mp hfa
+    obtain ⟨hd, h2, ⟨h3, h4⟩, h5, h6⟩ := (face_on_plane_iff h hv).mp hfs
+    obtain ⟨c, c0, ca, cb, rfl⟩ := (mem_faceNodes g f hv.1 n).mp hn
+    rw [hd] at c0 ca cb
+    refine ⟨c, by rw [c0, h2], ⟨?_, ?_⟩, ⟨?_, ?_⟩, rfl⟩ <;> omega
+  · rintro ⟨c, c0, ⟨ca0, ca1⟩, ⟨cb0, cb1⟩, rfl⟩
+    have hbound : ∀ d, d < 3 → c.get d ≤ g.n d := by
+      rw [forall_lt3_iff h.ho]
+      exact ⟨by rw [c0]; exact h.hk, by have := h.ha; omega, by have := h.hb; omega⟩
+    refine ⟨idx3_lt _ _ _ c (hbound 0 (by omega)) (hbound 1 (by omega)) (hbound 2 (by omega)), ?_⟩
+    -- a face of the rectangle that has the node as a corner
+    obtain ⟨ta, hta1, hta2, hta3⟩ : ∃ ta, a0 ≤ ta ∧ ta < a1 ∧
+        (c.get (activeDims o).1 = ta ∨ c.get (activeDims o).1 = ta + 1) := by
+      by_cases hlt : c.get (activeDims o).1 < a1
+      · exact ⟨_, ca0, hlt, Or.inl rfl⟩
+      · exact ⟨a1 - 1, by have := h.ha; omega, by have := h.ha; omega, Or.inr (by have := h.ha; omega)⟩
+    obtain ⟨tb, htb1, htb2, htb3⟩ : ∃ tb, b0 ≤ tb ∧ tb < b1 ∧
+        (c.get (activeDims o).2 = tb ∨ c.get (activeDims o).2 = tb + 1) := by
+      by_cases hlt : c.get (activeDims o).2 < b1
+      · exact ⟨_, cb0, hlt, Or.inl rfl⟩
+      · exact ⟨b1 - 1, by have := h.hb; omega, by have := h.hb; omega, Or.inr (by have := h.hb; omega)⟩
+    obtain ⟨t, t0, t1, t2⟩ := exists_T3 h.ho k0 ta tb
+    have hv : g.ValidFace (o, t) := by
+      rw [validFace_iff]
+      refine ⟨h.ho, ?_⟩
+      show ∀ d, d < 3 → t.get d < g.bound o d
+      rw [forall_lt3_iff h.ho]
+      unfold Grid3.bound
+      rw [if_pos rfl, if_neg hao, if_neg hbo, t0, t1, t2]
+      exact ⟨by have := h.hk; omega, by have := h.ha; omega, by have := h.hb; omega⟩
+    refine ⟨(o, t), ⟨(mem_allFaces g _).mpr hv, (face_on_plane_iff h hv).mpr ⟨rfl, t0, ?_, ?_⟩⟩, ?_⟩
+    · show a0 ≤ t.get _ ∧ t.get _ < a1; rw [t1]; exact ⟨hta1, hta2⟩
+    · show b0 ≤ t.get _ ∧ t.get _ < b1; rw [t2]; exact ⟨htb1, htb2⟩
+    · rw [mem_faceNodes g (o, t) h.ho]
+      refine ⟨c, ?_, ?_, ?_, rfl⟩
+      · show c.get o = t.get o; rw [c0, t0]
+      · show c.get _ = t.get _ ∨ c.get _ = t.get _ + 1; rw [t1]; exact hta3
+      · show c.get _ = t.get _ ∨ c.get _ = t.get _ + 1; rw [t2]; exact htb3
+
+
+/-! ### node splitting -/
+
+theorem listMin_le_init (m : Nat) (xs : List Nat) : listMin m xs ≤ m := by
+  induction xs with
+  | nil => exact Nat.le_refl _
+  | cons x t ih => exact Nat.le_trans (Nat.min_le_right _ _) ih
+
+theorem listMin_le_mem (m : Nat) (xs : List Nat) {x : Nat} (hx : x ∈ xs) : listMin m xs ≤ x := by
+  induction xs with
+  | nil => cases hx
+  | cons y t ih =>
+    rcases List.mem_cons.mp hx with rfl | h
+    · exact Nat.min_le_left _ _
+    · exact Nat.le_trans (Nat.min_le_right _ _) (ih h)
+
+theorem listMin_mem (m : Nat) (xs : List Nat) : listMin m xs = m ∨ listMin m xs ∈ xs := by
+  induction xs with
+  | nil => exact Or.inl rfl
+  | cons y t ih =>
+    show min y (listMin m t) = m ∨ min y (listMin m t) ∈ y :: t
+    rcases Nat.le_total y (listMin m t) with h | h
+    · rw [Nat.min_eq_left h]; exact Or.inr List.mem_cons_self
+    · rw [Nat.min_eq_right h]
+      rcases ih with e | e
+      · exact Or.inl e
+      · exact Or.inr (List.mem_cons_of_mem _ e)
+
+theorem tab_map (L : List Nat) (f : Nat → Nat) (c : Nat) : tab L (L.map f) c = if c ∈ L then f c else c := by
+  induction L with
+  | nil => simp [tab]
+  | cons k ks ih =>
+    simp only [List.map_cons, tab]
+    by_cases h : c = k
+    · subst h; simp
+    · rw [if_neg h, ih]; simp [h]
+
+theorem adj_iff (g : NodeGrid) (a b : Nat) : g.adj a b = true ↔ ∃ f, f ∈ g.cellFaces a ∧ f ∈ g.cellFaces b := by
+  simp [NodeGrid.adj, List.any_eq_true]
+
+theorem adj_symm (g : NodeGrid) {a b : Nat} (h : g.adj a b = true) : g.adj b a = true := by
+  rw [adj_iff] at h ⊢
+  obtain ⟨f, h1, h2⟩ := h
+  exact ⟨f, h2, h1⟩
+
+theorem Conn.trans {g : NodeGrid} {L : List Nat} {a b c : Nat} (h1 : Conn g L a b) (h2 : Conn g L b c) :
+    Conn g L a c := by
+  induction h2 with
+  | refl => exact h1
+  | step _ hb hc hadj ih => exact Conn.step ih hb hc hadj
+
+theorem Conn.single {g : NodeGrid} {L : List Nat} {a b : Nat} (ha : a ∈ L) (hb : b ∈ L) (h : g.adj a b = true) :
+    Conn g L a b := Conn.step (Conn.refl a) ha hb h
+
+theorem Conn.symm {g : NodeGrid} {L : List Nat} {a b : Nat} (h : Conn g L a b) : Conn g L b a := by
+  induction h with
+  | refl => exact Conn.refl _
+  | step _ hb hc hadj ih => exact (Conn.single hc hb (adj_symm g hadj)).trans ih
+
+/-- every label is a cell of the cluster connected to the cell that carries it -/
+def Good (g : NodeGrid) (L : List Nat) (lab : Nat → Nat) : Prop := ∀ c, c ∈ L → lab c ∈ L ∧ Conn g L c (lab c)
+
+theorem stepLab_cases (g : NodeGrid) (L : List Nat) (lab : Nat → Nat) (c : Nat) :
+    g.stepLab L lab c = lab c ∨ ∃ d, d ∈ L ∧ g.adj c d = true ∧ g.stepLab L lab c = lab d := by
+  unfold NodeGrid.stepLab
+  rcases listMin_mem (lab c) ((L.filter (fun d => g.adj c d)).map lab) with h | h
+  · exact Or.inl h
+  · obtain ⟨d, hd, e⟩ := List.mem_map.mp h
+    rw [List.mem_filter] at hd
+    exact Or.inr ⟨d, hd.1, hd.2, e.symm⟩
+
+theorem good_step (g : NodeGrid) (L : List Nat) (lab : Nat → Nat) (h : Good g L lab) :
+    Good g L (tab L (L.map (g.stepLab L lab))) := by
+  intro c hc
+  rw [tab_map, if_pos hc]
+  rcases stepLab_cases g L lab c with e | ⟨d, hd, hadj, e⟩
+  · rw [e]; exact h c hc
+  · rw [e]
+    exact ⟨(h d hd).1, (Conn.single hc hd hadj).trans (h d hd).2⟩
+
+theorem tab_self (L : List Nat) (c : Nat) : tab L L c = c := by
+  have := tab_map L (fun x => x) c
+  rw [List.map_id'] at this
+  rw [this]; split <;> rfl
+
+theorem good_iter (g : NodeGrid) (L : List Nat) : ∀ (t : Nat) (v : List Nat), Good g L (tab L v) →
+    Good g L (tab L (g.iterVals L t v)) := by
+  intro t
+  induction t with
+  | zero => intro v h; exact h
+  | succ t ih => intro v h; exact ih _ (good_step g L (tab L v) h)
+
+theorem good_labels (g : NodeGrid) (L : List Nat) : Good g L (g.labels L) :=
+  good_iter g L _ _ (fun c hc => by rw [tab_self]; exact ⟨hc, Conn.refl c⟩)
+
+theorem stable_adj {g : NodeGrid} {L : List Nat} {lab : Nat → Nat} (hs : g.stable L lab = true)
+    {a b : Nat} (ha : a ∈ L) (hb : b ∈ L) (hadj : g.adj a b = true) : lab a = lab b := by
+  have key : ∀ {a b : Nat}, a ∈ L → b ∈ L → g.adj a b = true → lab a ≤ lab b := by
+    intro a b ha hb hadj
+    have h1 : g.stepLab L lab a = lab a := by
+      have := List.all_eq_true.mp hs a ha
+      simpa using this
+    rw [← h1]
+    unfold NodeGrid.stepLab
+    exact listMin_le_mem _ _ (List.mem_map.mpr ⟨b, List.mem_filter.mpr ⟨hb, hadj⟩, rfl⟩)
+  exact Nat.le_antisymm (key ha hb hadj) (key hb ha (adj_symm g hadj))
+
+theorem stable_conn {g : NodeGrid} {L : List Nat} {lab : Nat → Nat} (hs : g.stable L lab = true)
+    {a b : Nat} (h : Conn g L a b) : lab a = lab b := by
+  induction h with
+  | refl => rfl
+  | step _ hb hc hadj ih => exact ih.trans (stable_adj hs hb hc hadj)
+
+/-- labels characterise the connected components -/
+theorem label_eq_iff_conn {g : NodeGrid} {L : List Nat} {lab : Nat → Nat} (hg : Good g L lab)
+    (hs : g.stable L lab = true) {a b : Nat} (ha : a ∈ L) (hb : b ∈ L) : lab a = lab b ↔ Conn g L a b := by
+  constructor
+  · intro e
+    have h1 := (hg a ha).2
+    have h2 := (hg b hb).2
+    rw [← e] at h2
+    exact h1.trans h2.symm
+  · exact stable_conn hs
+
+theorem label_mem_roots {g : NodeGrid} {L : List Nat} {lab : Nat → Nat} (hg : Good g L lab)
+    (hs : g.stable L lab = true) {a : Nat} (ha : a ∈ L) : lab a ∈ roots L lab := by
+  unfold roots
+  rw [List.mem_filter]
+  exact ⟨(hg a ha).1, by simpa using (stable_conn hs (hg a ha).2).symm⟩
+
+theorem nodup_cluster (g : NodeGrid) (n : Nat) : (g.cluster n).Nodup := (List.nodup_range).filter _
+
+theorem nodup_roots {L : List Nat} (lab : Nat → Nat) (h : L.Nodup) : (roots L lab).Nodup := h.filter _
+
+theorem offsetAux_none (hit : Nat → Bool) (rs : List Nat) (t : Nat) (h : ∀ r, r ∈ rs → hit r = false) :
+    offsetAux hit rs t = 0 := by
+  induction rs generalizing t with
+  | nil => rfl
+  | cons r rs ih =>
+    simp only [offsetAux, h r List.mem_cons_self, Bool.false_eq_true, and_false, if_false, Nat.zero_add]
+    exact ih _ (fun x hx => h x (List.mem_cons_of_mem _ hx))
+
+theorem offsetAux_single (hit : Nat → Bool) (rs : List Nat) (t r0 : Nat) (hnd : rs.Nodup) (hr0 : r0 ∈ rs)
+    (hh : ∀ r, r ∈ rs → (hit r = true ↔ r = r0)) : offsetAux hit rs t = t + rs.idxOf r0 := by
+  induction rs generalizing t with
+  | nil => cases hr0
+  | cons r rs ih =>
+    rw [List.nodup_cons] at hnd
+    by_cases hr : r = r0
+    · subst hr
+      have hhit : hit r = true := (hh r List.mem_cons_self).mpr rfl
+      have hrest : offsetAux hit rs (t + 1) = 0 := offsetAux_none hit rs _ (fun x hx => by
+        cases hx' : hit x with
+        | false => rfl
+        | true => exact absurd ((hh x (List.mem_cons_of_mem _ hx)).mp hx' ▸ hx) hnd.1)
+      simp only [offsetAux, hhit, and_true, hrest, List.idxOf_cons_self, Nat.add_zero]
+      by_cases h1 : 1 ≤ t
+      · rw [if_pos h1]
+      · rw [if_neg h1]; omega
+    · have hhit : hit r = false := by
+        cases hx' : hit r with
+        | false => rfl
+        | true => exact absurd ((hh r List.mem_cons_self).mp hx') hr
+      have hr0' : r0 ∈ rs := by
+        rcases List.mem_cons.mp hr0 with e | e
+        · exact absurd e.symm hr
+        · exact e
+      simp only [offsetAux, hhit, Bool.false_eq_true, and_false, if_false, Nat.zero_add]
+      rw [ih (t + 1) hnd.2 hr0' (fun x hx => hh x (List.mem_cons_of_mem _ hx)),
+        List.idxOf_cons]
+      have : (r == r0) = false := by simpa using hr
+      rw [this, cond_false]
+      omega
+
+theorem lookupInfo_map (F : Nat → NodeInfo) (split : List Nat) (n : Nat) :
+    lookupInfo (split.map (fun m => (m, F m))) n = if n ∈ split then some (F n) else none := by
+  induction split with
+  | nil => rfl
+  | cons k ks ih =>
+    simp only [List.map_cons, lookupInfo]
+    by_cases h : n = k
+    · subst h; simp
+    · rw [if_neg h, ih]; simp [h]
+
+theorem duplicateNodes_some {g : NodeGrid} {split : List Nat} {r : NodeOut} (h : g.duplicateNodes split = some r) :
+    (∀ n, n ∈ split → g.stable (g.cluster n) (g.labels (g.cluster n)) = true) ∧
+    r.nN = g.nN + ((split.map (fun n => (roots (g.cluster n) (g.labels (g.cluster n))).length - 1)).foldl (· + ·) 0) ∧
+    (∀ f, r.faceNodes f = (g.faceNodes f).map (fun n =>
+        n + (if n ∈ split then g.offset (g.info n) f else 0) + incBefore (split.map (fun m => (m, g.info m))) n)) := by
+  unfold NodeGrid.duplicateNodes at h
+  simp only [] at h
+  split at h
+  · rename_i hall
+    injection h with h
+    subst h
+    refine ⟨?_, ?_, ?_⟩
+    · intro n hn
+      have := List.all_eq_true.mp hall (n, g.info n) (List.mem_map.mpr ⟨n, hn, rfl⟩)
+      exact this
+    · simp only [List.map_map]; rfl
+    · intro f
+      apply List.map_congr_left
+      intro n _
+      simp only [lookupInfo_map]
+      by_cases hn : n ∈ split
+      · simp [hn]
+      · simp [hn]
+  · cases h
+
+/-- in the faces of a cell `c` around a split node, the node is replaced by the copy that belongs to
+    the component of `c` (copy number = rank of the component) -/
+theorem offset_eq_rank {g : NodeGrid} {n c f : Nat}
+    (hs : g.stable (g.cluster n) (g.labels (g.cluster n)) = true)
+    (hc : c ∈ g.cluster n) (hf : f ∈ g.cellFaces c) :
+    g.offset (g.info n) f = (roots (g.cluster n) (g.labels (g.cluster n))).idxOf (g.labels (g.cluster n) c) := by
+  have hg := good_labels g (g.cluster n)
+  have := offsetAux_single
+    (fun r => (g.cluster n).any (fun c' => g.labels (g.cluster n) c' = r && decide (f ∈ g.cellFaces c')))
+    (roots (g.cluster n) (g.labels (g.cluster n))) 0 (g.labels (g.cluster n) c)
+    (nodup_roots _ (nodup_cluster g n)) (label_mem_roots hg hs hc)
+    (fun r _ => by
+      simp only [List.any_eq_true, Bool.and_eq_true, decide_eq_true_eq]
+      constructor
+      · rintro ⟨c', hc', hl, hf'⟩
+        rw [← hl]
+        exact stable_adj hs hc' hc ((adj_iff g c' c).mpr ⟨f, hf', hf⟩)
+      · intro e
+        exact ⟨c, hc, e.symm, hf⟩)
+  rw [Nat.zero_add] at this
+  exact this
 
 end PorepyVerif.C25
